@@ -345,6 +345,12 @@ class ConditionLike:
         else:
             spec_key, spec_val = next(iter(spec.items()))  # single-item dict
 
+        if not isinstance(spec_key, str):
+            raise MalformedConditionLikeSpec(
+                f"The specification key of a condition-like must be a string, but found: "
+                f"{spec_key!r}."
+            )
+
         spec_key_split = [i.lower() for i in spec_key.split(".")]
         spec_key_split_len = len(spec_key_split)
 
@@ -383,7 +389,7 @@ class ConditionLike:
             if spec_key_split_len == 3:
                 try:
                     pre_proc_str = spec_key_split[1]
-                    pre_proc_str = PRE_PROC_LOOKUP.get(pre_proc_str, pre_proc_str)
+                    pre_proc_str = PRE_PROC_LOOKUP[pre_proc_str]
                     if pre_proc_str == "dtype":
                         try:
                             # convert strings to types
@@ -406,7 +412,7 @@ class ConditionLike:
 
                     cls = getattr(cls, pre_proc_str)
 
-                except AttributeError:
+                except (KeyError, AttributeError):
                     raise MalformedConditionLikeSpec(
                         f"Condition pre-processor {pre_proc_str!r} not understood. "
                         f'Available pre-processors are "length" and "type"/"dtype", but '
